@@ -27,7 +27,7 @@ Fixpoint atoms (e : rexpr) : list uatom :=
   | RUser o => [UExpr o]
   | RVar _ | RUsize _ | RBool _ | RUnreachable | RJoinMac _ _ => []
   | RBlock s e | RAsyncMove s e => ss s ++ atoms e
-  | RAwait e | RBoxPin e | RField e _ | RClosure _ e | RClosureIgn e | RMoveThunk e
+  | RAwait e | RBoxPin e | RField e _ | RClosure _ e | RClosureMove _ e | RClosureIgn e | RMoveThunk e
   | RNot e | RRef e | ROk e => atoms e
   | RTuple l | RArray l | RJuxt l => es l
   | RMeth r _ tf args => atoms r ++ match tf with Some tys => map UType tys | None => [] end ++ es args
@@ -269,23 +269,28 @@ Proof.
     pose proof (expand_atoms _ _ _ _ _ _ E) as He. rewrite Hexp in He. exact He.
 Qed.
 
+(* the wrapper closure, in either form (`|__v| e` / `move |__v| e`), holds exactly the atoms of its body *)
+Lemma atoms_wrapper_closure cfg e : atoms (wrapper_closure cfg e) = atoms e.
+Proof. unfold wrapper_closure. destruct (is_async cfg && is_spawn cfg); reflexivity. Qed.
+
 (* a wrapper combinator receiving its closure *)
 Lemma wrapper_step_atoms cfg defs cur w prev ds' s :
   can_be_wrapper (p_comb w) = true ->
-  gen_def_and_step cfg defs cur (set_args w [RClosure n_v prev]) = Ok (ds', s) ->
+  gen_def_and_step cfg defs cur (set_args w [wrapper_closure cfg prev]) = Ok (ds', s) ->
   ds' = defs /\ Permutation (atoms s) (atoms cur ++ atoms prev).
 Proof.
   intros Hc H. unfold gen_def_and_step in H.
   rewrite (separate_block_expr_spec _ (can_be_wrapper_pos_ok w _ Hc)) in H.
   unfold set_args in H; cbn [p_comb p_args p_ops p_branch p_expr] in H.
   assert (Hh : (if is_replaceable (p_comb w) && has_inner_exprs (p_comb w)
-                then hoist (p_branch w) (p_expr w) 0 [RClosure n_v prev] else ([], [RClosure n_v prev]))
-               = ([], [RClosure n_v prev])).
-  { destruct (is_replaceable (p_comb w) && has_inner_exprs (p_comb w)); reflexivity. }
+                then hoist (p_branch w) (p_expr w) 0 [wrapper_closure cfg prev] else ([], [wrapper_closure cfg prev]))
+               = ([], [wrapper_closure cfg prev])).
+  { unfold wrapper_closure.
+    destruct (is_replaceable (p_comb w) && has_inner_exprs (p_comb w)), (is_async cfg && is_spawn cfg); reflexivity. }
   rewrite Hh in H. inv_bind H. inversion H; subst. split; [apply app_nil_r|].
   pose proof (expand_atoms _ _ _ _ _ _ E) as He.
   eapply Permutation_trans; [exact He|].
-  destruct (p_comb w); cbn in Hc; try discriminate; cbn [expand_expected flat_map atoms]; rewrite app_nil_r; reflexivity.
+  destruct (p_comb w); cbn in Hc; try discriminate; cbn [expand_expected flat_map]; rewrite atoms_wrapper_closure, app_nil_r; reflexivity.
 Qed.
 
 (* ---------------------------------------------------------------------------------------------- *)
@@ -744,7 +749,7 @@ Fixpoint leaves (e : rexpr) : list operand :=
   | RUser o => [o]
   | RVar _ | RUsize _ | RBool _ | RUnreachable | RJoinMac _ _ => []
   | RBlock s e | RAsyncMove s e => ss s ++ leaves e
-  | RAwait e | RBoxPin e | RField e _ | RClosure _ e | RClosureIgn e | RMoveThunk e
+  | RAwait e | RBoxPin e | RField e _ | RClosure _ e | RClosureMove _ e | RClosureIgn e | RMoveThunk e
   | RNot e | RRef e | ROk e => leaves e
   | RTuple l | RArray l | RJuxt l => es l
   | RMeth r _ _ args | RGlue r _ args => leaves r ++ es args
@@ -773,7 +778,7 @@ Fixpoint tyfields (e : rexpr) : list operand :=
   match e with
   | RUser _ | RVar _ | RUsize _ | RBool _ | RUnreachable | RJoinMac _ _ => []
   | RBlock s e | RAsyncMove s e => ss s ++ tyfields e
-  | RAwait e | RBoxPin e | RField e _ | RClosure _ e | RClosureIgn e | RMoveThunk e
+  | RAwait e | RBoxPin e | RField e _ | RClosure _ e | RClosureMove _ e | RClosureIgn e | RMoveThunk e
   | RNot e | RRef e | ROk e => tyfields e
   | RTuple l | RArray l | RJuxt l => es l
   | RMeth r _ tf args => tyfields r ++ match tf with Some tys => tys | None => [] end ++ es args
@@ -802,7 +807,7 @@ Fixpoint dotfields (e : rexpr) : list operand :=
   match e with
   | RUser _ | RVar _ | RUsize _ | RBool _ | RUnreachable | RJoinMac _ _ => []
   | RBlock s e | RAsyncMove s e => ss s ++ dotfields e
-  | RAwait e | RBoxPin e | RField e _ | RClosure _ e | RClosureIgn e | RMoveThunk e
+  | RAwait e | RBoxPin e | RField e _ | RClosure _ e | RClosureMove _ e | RClosureIgn e | RMoveThunk e
   | RNot e | RRef e | ROk e => dotfields e
   | RTuple l | RArray l | RJuxt l => es l
   | RMeth r _ _ args | RGlue r _ args => dotfields r ++ es args
